@@ -435,9 +435,9 @@ func ruleStrictInteger(w *World, r *Run, rule string) {
 						}
 						// … on the whole remainder of the line: a line cut to a fixed length before it is parsed ("old
 						// 100000000000000000000" read as 10^19) is partly understood
-						if anySub(pu.Args[0], func(x *Term) bool { return x.Kind == "slice" }) {
+						if anySub(pu.Args[0], func(x *Term) bool { return x.Kind == "slice" && len(x.Args) == 3 && x.Args[2] != nil }) {
 							bad++
-							r.Fail(rule, fnParseBody+" | the size line is parsed whole", w.pos(pu.Pos), "the text handed to ParseUint is a slice of the line ("+short(pu.Args[0].String())+"): a size line longer than the cut is accepted for its prefix instead of being refused")
+							r.Fail(rule, fnParseBody+" | the size line is parsed whole", w.pos(pu.Pos), "the text handed to ParseUint is the line cut at an upper bound ("+short(pu.Args[0].String())+"): a size line longer than the cut is accepted for its prefix instead of being refused")
 						}
 					}
 				}
